@@ -1,6 +1,7 @@
 import DrummerVerif.Lemmas.C14N
 import DrummerVerif.Lemmas.C14G
 import DrummerVerif.Lemmas.C14F
+import DrummerVerif.Lemmas.C14O
 /-!
 # C14 — Drummer leadership: holder-only, stable under renewal, bounded takeover
 
@@ -131,6 +132,69 @@ theorem partial_failure_turn_panics_iff :
     ∀ (s : SrvF) (r : Rec) (fa : Nat),
       fails fa 1 = false → (turnF s r fa = none ↔ turn s.base r false = none) :=
   @_root_.Elect.turnF_panics_iff
+
+/-! ### single DB operations, any interleaving (`Model/ElectO`): every operation of a turn acts on the record as it is
+    at that moment, other servers' operations may come in between; the turn of the theorems above is the special case
+    with nothing in between (last theorem) -/
+
+theorem leader_only_after_own_id_at_every_operation :
+    ∀ (s s' : SrvO) (r r' : Rec) (fail : Bool),
+      SrvO.WF s →
+        micro s r fail = some (s', r') →
+          s'.base.leader = true →
+            fail = false ∧ recInst r' = s.base.id ∨ s.pend = Pend.renewL ∧ s.sess = false ∧ s.base.leader = true ∧ r' = r :=
+  @_root_.Elect.micro_leader_only_after_own_id
+
+theorem leader_steps_down_at_its_next_read :
+    ∀ (s s' : SrvO) (r r' : Rec) (fail : Bool),
+      s.pend = Pend.idle →
+        s.base.leader = true →
+          fail = true ∨ recInst r ≠ s.base.id →
+            micro s r fail = some (s', r') → s'.base.leader = false ∧ s'.pend = Pend.idle ∧ r' = r :=
+  @_root_.Elect.micro_step_down
+
+theorem refused_renewal_ends_in_a_follower :
+    ∀ (s s' : SrvO) (r r' : Rec),
+      s.pend = Pend.renewL ∨ s.pend = Pend.renewR →
+        s.sess = true →
+          (write r s.base.id 0 s.base.tick).snd = false →
+            micro s r false = some (s', r') → s'.base.leader = false ∧ s'.pend = Pend.idle ∧ r' = r :=
+  @_root_.Elect.micro_refused_renewal
+
+theorem operations_keep_servers_well_formed :
+    ∀ (s s' : SrvO) (r r' : Rec) (fail : Bool), SrvO.WF s → micro s r fail = some (s', r') → SrvO.WF s' :=
+  @_root_.Elect.micro_wf
+
+theorem system_stays_well_formed :
+    ∀ (y y' : Sys) (i : Nat) (fail : Bool), Sys.WF y → sysStep y i fail = some y' → Sys.WF y' :=
+  @_root_.Elect.sysStep_wf
+
+theorem leader_only_after_own_id_in_every_interleaving :
+    ∀ (y y' : Sys) (i : Nat) (fail : Bool),
+      Sys.WF y →
+        sysStep y i fail = some y' →
+          ∀ (s s' : SrvO),
+            y.srv[i]? = some s →
+              y'.srv[i]? = some s' →
+                s'.base.leader = true →
+                  (fail = false ∧ recInst y'.record = s.base.id ∨
+                      s.pend = Pend.renewL ∧ s.sess = false ∧ s.base.leader = true ∧ y'.record = y.record) ∧
+                    ∀ (j : Nat), j ≠ i → y'.srv[j]? = y.srv[j]? :=
+  @_root_.Elect.sys_leader_only_after_own_id
+
+theorem turn_is_its_operations_back_to_back :
+    ∀ (s : SrvO) (r : Rec) (fa : Nat),
+      s.pend = Pend.idle → runTurn s r fa = Option.map (fun p => (ofF p.fst, p.snd)) (turnF (toF s) r fa) :=
+  @_root_.Elect.runTurn_eq_turnF
+
+
+/-- the hypotheses of `refused_renewal_ends_in_a_follower` are met by a concrete state: server 2 resumes (it found its
+    own id in the record before), meanwhile the record has come to name server 1, the renewal is refused -/
+example :
+    let s : SrvO := { base := { id := 2, tick := 9 }, sess := true, pend := .renewR }
+    (s.pend = .renewL ∨ s.pend = .renewR) ∧ s.sess = true ∧ (write (some (1, 5)) s.base.id 0 s.base.tick).2 = false ∧
+      (micro s (some (1, 5)) false).map (fun p => (p.1.base.leader, p.1.pend, p.2)) = some (false, .idle, some (1, 5)) := by
+  decide
 
 end C14
 end Elect
